@@ -82,24 +82,28 @@ package leb128
 //@ func EncodeUint32
 //@   ensures[len]   len(result) == uleb_len(uint64(v)) && len(result) <= 5
 //@   ensures[bytes] forall k in 0..5 :: k < len(result) ==> result[k] == uleb_byte(uint64(v), k)
+//@   ensures[fresh] isfresh(result)
 //@   safe
 //@   property C19
 
 //@ func EncodeUint64
 //@   ensures[len]   len(buf) == uleb_len(v)
 //@   ensures[bytes] forall k in 0..10 :: k < len(buf) ==> buf[k] == uleb_byte(v, k)
+//@   ensures[fresh] isfresh(buf)
 //@   safe
 //@   property C19
 
 //@ func EncodeInt32
 //@   ensures[len]   len(result) == sleb_len(int64(v)) && len(result) <= 5
 //@   ensures[bytes] forall k in 0..5 :: k < len(result) ==> result[k] == sleb_byte(int64(v), k)
+//@   ensures[fresh] isfresh(result)
 //@   safe
 //@   property C19
 
 //@ func EncodeInt64
 //@   ensures[len]   len(result) == sleb_len(v)
 //@   ensures[bytes] forall k in 0..10 :: k < len(result) ==> result[k] == sleb_byte(v, k)
+//@   ensures[fresh] isfresh(result)
 //@   safe
 //@   property C19
 
@@ -266,4 +270,19 @@ package leb128
 //@   let r, n, e := LoadInt64(b)
 //@   assert e == nil
 //@   assert r == v && n == uint64(len(b))
+//@   property C19
+
+// small values: a number below 128 (unsigned) resp. below 64 and non-negative (signed) is encoded as the
+// single byte equal to itself; every u32 needs at most 5 bytes. (Used, restated over uninterpreted
+// functions, by the int-mode contracts of internal/wasm/binary, property C04.)
+//@ lemma small_uleb
+//@   forall v uint64
+//@   assert v < 128 ==> uleb_len(v) == 1 && uleb_byte(v, 0) == uint8(v)
+//@   assert v < (1 << 32) ==> uleb_len(v) <= 5
+//@   assert 1 <= uleb_len(v) && uleb_len(v) <= 10
+//@   property C19
+//@ lemma small_sleb
+//@   forall v int64
+//@   assert 0 <= v && v < 64 ==> sleb_len(v) == 1 && sleb_byte(v, 0) == uint8(v)
+//@   assert 1 <= sleb_len(v) && sleb_len(v) <= 10
 //@   property C19
